@@ -120,10 +120,15 @@ Definition enc_val (full : bool) (z : Z) : list Z := if full then [z] else fp z.
 Definition enc_after (full : bool) (orig r v : Z) : list Z :=
   if v =? orig then [0] else if v =? r then [1] else 2 :: enc_val full v.
 
+(* Failures are compared as a class only: 0 = the call returned, 1 = it panicked / returned an error.  The kind of a
+   failure (overflow, division by zero, precision ...) is what the driver guesses from the panic *text*; the property
+   only says that such calls fail, so a reworded message must not count as a disagreement.  The driver's fine kind is
+   kept in the evidence as a diagnostic. *)
+Definition fail_class (p : Z) : Z := if p =? 0 then 0 else 1.
 Definition run_obs (full : bool) (o : op) (alias : bool) (a b k : Z) : list Z :=
   let '(p, r, a2, b2, ra) := run_raw o alias a b k in
   let b0 := if alias then a else b in
-  [p] ++ enc_val full r ++ enc_after full a r a2 ++ enc_after full b0 r b2 ++ [ra].
+  [fail_class p] ++ enc_val full r ++ enc_after full a r a2 ++ enc_after full b0 r b2 ++ [ra].
 
 (* ---- value level: Base/DecModel.v functions with the guards of the code ([p; r]) ---- *)
 Definition chk (fits : Z -> bool) (v : Z) : Z * Z := if fits v then (0, v) else (1, 0).
@@ -192,7 +197,7 @@ Definition is_mut (o : op) : bool :=
 
 Record case := mkC {
   c_op : op; c_alias : bool; c_full : bool; c_a : Z; c_b : Z; c_k : Z;
-  c_expect : list Z }.               (* implementation: [p] ++ enc r ++ enc_after a ++ enc_after b ++ [ra] *)
+  c_expect : list Z }.               (* implementation: [fail_class p] ++ enc r ++ enc_after a ++ enc_after b ++ [ra] *)
 
 Definition model_obs (c : case) : list Z := run_obs (c_full c) (c_op c) (c_alias c) (c_a c) (c_b c) (c_k c).
 
@@ -206,7 +211,7 @@ Fixpoint zlist_prefix (a b : list Z) : bool :=
 Definition spec_ok (c : case) : bool :=
   if c_alias c && is_mut (c_op c) then true else
   match vspec (c_op c) (c_a c) (if c_alias c then c_a c else c_b c) (c_k c) with
-  | Some (p, r) => zlist_prefix ([p] ++ enc_val (c_full c) r) (c_expect c)
+  | Some (p, r) => zlist_prefix ([fail_class p] ++ enc_val (c_full c) r) (c_expect c)
   | None => true
   end.
 
